@@ -147,11 +147,16 @@ CHECKS["C02"] = dict(
          "delivery in bounded time or absence of stalls over all fault histories (abandoned fragments of partially reliable messages are outside the rules).",
     ref="DESIGN.md section 3 C02")
 
-NOT_APPLICABLE = {
-    "C06": "every clause quantifies over loss schedules, timers and the interleaving of several channels' fragments across heap queues; no "
-           "clause has a structural necessary condition that is not merely a description of one implementation (DESIGN.md section 5). Its "
-           "serial comparisons are decided under C17, its parser robustness under C05.",
-}
+CHECKS["C06"] = dict(
+    technique="pairing, snapshot-iteration and ordering rules on the syntax tree; agreement of the abandonment sender/receiver code with the specification 'exactly the abandoned message' by evaluating the function asts with the checker's interpreter over enumerated queue shapes",
+    text="Decides: an abandoned chunk is never (re)transmitted (pairing of _abandoned/_retransmit stores, retransmission guarded by _maybe_abandon); loops that may abandon "
+         "iterate over a snapshot of the sent queue; FORWARD-TSN is built only from the abandoned prefix and sent before data; for every enumerated layout (message of 1..4 "
+         "fragments, 1..k sent, trigger fragment, ordered/unordered, reliable prefix or not) exactly that message's fragments - sent or queued - are abandoned and the FORWARD-TSN "
+         "is exact; for every subset of already received chunks of two reliable messages next to an abandoned one the receiver delivers them once, intact, in order. It does "
+         "not decide behaviour under fault schedules.",
+    ref="DESIGN.md section 9.4 C06")
+
+NOT_APPLICABLE = {}
 
 ENGINE_FOR = {}
 
